@@ -9,10 +9,14 @@ From LS Require Import Base Utf8 Cmd Impl.
 From LSGen Require Import GenSrc.
 Open Scope N_scope.
 
-Record ghost := { g_refs : bufid -> nat; g_excl : bufid -> bool; g_free : bufid -> bool }.
+Record ghost := { g_refs : bufid -> nat; g_excl : bufid -> bool; g_free : bufid -> bool;
+                  g_fen : bool (* an acquire fence has been executed since this thread's last RMW *) }.
+Definition acq (o : ord) : bool := match o with Acquire | AcqRel | SeqCst => true | _ => false end.
+Definition rel (o : ord) : bool := match o with Release | AcqRel | SeqCst => true | _ => false end.
 Definition setf {A} (f : bufid -> A) (b : bufid) (x : A) : bufid -> A := fun b' => if Nat.eqb b' b then x else f b'.
 
-Definition can_read (g : ghost) (b : bufid) : Prop := (0 < g_refs g b)%nat \/ g_excl g b = true \/ g_free g b = true.
+Definition can_read (g : ghost) (b : bufid) : Prop :=
+  (0 < g_refs g b)%nat \/ g_excl g b = true \/ (g_free g b = true /\ g_fen g = true).
 
 Fixpoint okc {R} (c : cmd R) (g : ghost) (Q : R -> ghost -> Prop) : Prop :=
   match c with
@@ -21,22 +25,23 @@ Fixpoint okc {R} (c : cmd R) (g : ghost) (Q : R -> ghost -> Prop) : Prop :=
   | Alloc _ k =>
       okc (k None) g Q
       /\ forall b, g_refs g b = 0%nat -> g_excl g b = false -> g_free g b = false ->
-           okc (k (Some b)) {| g_refs := setf (g_refs g) b 1%nat; g_excl := setf (g_excl g) b true; g_free := g_free g |} Q
+           okc (k (Some b)) {| g_refs := setf (g_refs g) b 1%nat; g_excl := setf (g_excl g) b true; g_free := g_free g; g_fen := g_fen g |} Q
   | Realloc b _ _ k => g_excl g b = true /\ forall ok, okc (k ok) g Q
-  | Dealloc b _ k => g_free g b = true /\ okc k {| g_refs := g_refs g; g_excl := g_excl g; g_free := setf (g_free g) b false |} Q
+  | Dealloc b _ k => g_free g b = true /\ g_fen g = true
+                     /\ okc k {| g_refs := g_refs g; g_excl := g_excl g; g_free := setf (g_free g) b false; g_fen := g_fen g |} Q
   | HdrInit b _ k => g_excl g b = true /\ okc k g Q
   | HdrCap b k => can_read g b /\ forall v, okc (k v) g Q
   | Rmw b true _ k =>
       (0 < g_refs g b)%nat
-      /\ forall v, okc (k v) {| g_refs := setf (g_refs g) b (S (g_refs g b)); g_excl := setf (g_excl g) b false; g_free := g_free g |} Q
-  | Rmw b false _ k =>
-      (0 < g_refs g b)%nat /\ g_free g b = false
+      /\ forall v, okc (k v) {| g_refs := setf (g_refs g) b (S (g_refs g b)); g_excl := setf (g_excl g) b false; g_free := g_free g; g_fen := false |} Q
+  | Rmw b false o k =>
+      (0 < g_refs g b)%nat /\ g_free g b = false /\ rel o = true
       /\ forall v, okc (k v) {| g_refs := setf (g_refs g) b (g_refs g b - 1)%nat; g_excl := setf (g_excl g) b false;
-                                g_free := setf (g_free g) b (v =? 1) |} Q
-  | Load b _ k =>
-      (0 < g_refs g b)%nat
-      /\ forall v, okc (k v) {| g_refs := g_refs g; g_excl := setf (g_excl g) b (g_excl g b || (v =? 1)); g_free := g_free g |} Q
-  | Fence _ k => okc k g Q
+                                g_free := setf (g_free g) b (v =? 1); g_fen := false |} Q
+  | Load b o k =>
+      (0 < g_refs g b)%nat /\ acq o = true
+      /\ forall v, okc (k v) {| g_refs := g_refs g; g_excl := setf (g_excl g) b (g_excl g b || (v =? 1)); g_free := g_free g; g_fen := g_fen g |} Q
+  | Fence o k => okc k {| g_refs := g_refs g; g_excl := g_excl g; g_free := g_free g; g_fen := g_fen g || acq o |} Q
   | Read (PHeap b) _ _ k => can_read g b /\ forall bs, okc (k bs) g Q
   | Read (PStatic _) _ _ k => forall bs, okc (k bs) g Q
   | Write (PHeap b) _ _ k => g_excl g b = true /\ okc k g Q
@@ -52,13 +57,13 @@ Proof.
     intros g H; cbn [bind okc] in *; auto.
   - destruct H as (H1 & H2). split; [apply IH; exact H1|]. intros b Hb1 Hb2 Hb3. apply IH. apply H2; auto.
   - destruct H as (H1 & H2). split; [exact H1|]. intros ok. apply IH. apply H2.
-  - destruct H as (H1 & H2). split; [exact H1|]. apply IH. exact H2.
+  - destruct H as (H1 & H2 & H3). split; [exact H1|]. split; [exact H2|]. apply IH. exact H3.
   - destruct H as (H1 & H2). split; [exact H1|]. apply IH. exact H2.
   - destruct H as (H1 & H2). split; [exact H1|]. intros v. apply IH. apply H2.
   - destruct a.
     + destruct H as (H1 & H2). split; [exact H1|]. intros v. apply IH. apply H2.
-    + destruct H as (H1 & H2 & H3). split; [exact H1|]. split; [exact H2|]. intros v. apply IH. apply H3.
-  - destruct H as (H1 & H2). split; [exact H1|]. intros v. apply IH. apply H2.
+    + destruct H as (H1 & H2 & H3 & H4). split; [exact H1|]. split; [exact H2|]. split; [exact H3|]. intros v. apply IH. apply H4.
+  - destruct H as (H1 & H2 & H3). split; [exact H1|]. split; [exact H2|]. intros v. apply IH. apply H3.
   - destruct p as [b|s].
     + destruct H as (H1 & H2). split; [exact H1|]. intros bs. apply IH. apply H2.
     + intros bs. apply IH. apply H.
@@ -72,13 +77,13 @@ Proof.
     intros g H HQ; cbn [okc] in *; auto.
   - destruct H as (H1 & H2). split; [eapply IH; eauto|]. intros b Hb1 Hb2 Hb3. eapply IH; eauto.
   - destruct H as (H1 & H2). split; [exact H1|]. intros ok. eapply IH; eauto.
-  - destruct H as (H1 & H2). split; [exact H1|]. eapply IH; eauto.
+  - destruct H as (H1 & H2 & H3). split; [exact H1|]. split; [exact H2|]. eapply IH; eauto.
   - destruct H as (H1 & H2). split; [exact H1|]. eapply IH; eauto.
   - destruct H as (H1 & H2). split; [exact H1|]. intros v. eapply IH; eauto.
   - destruct a.
     + destruct H as (H1 & H2). split; [exact H1|]. intros v. eapply IH; eauto.
-    + destruct H as (H1 & H2 & H3). split; [exact H1|]. split; [exact H2|]. intros v. eapply IH; eauto.
-  - destruct H as (H1 & H2). split; [exact H1|]. intros v. eapply IH; eauto.
+    + destruct H as (H1 & H2 & H3 & H4). split; [exact H1|]. split; [exact H2|]. split; [exact H3|]. intros v. eapply IH; eauto.
+  - destruct H as (H1 & H2 & H3). split; [exact H1|]. split; [exact H2|]. intros v. eapply IH; eauto.
   - destruct p as [b|s].
     + destruct H as (H1 & H2). split; [exact H1|]. intros bs. eapply IH; eauto.
     + intros bs. eapply IH; eauto.
@@ -86,7 +91,7 @@ Proof.
   - destruct p as [b|s0]; [|exact H]. destruct H as (H1 & H2). split; [exact H1|]. eapply IH; eauto.
 Qed.
 
-Ltac gs := cbn [g_refs g_excl g_free]; unfold setf; rewrite ?Nat.eqb_refl.
+Ltac gs := cbn [g_refs g_excl g_free g_fen]; unfold setf; rewrite ?Nat.eqb_refl.
 
 (* the thread holds a reference for handle r *)
 Definition holds (g : ghost) (r : repr) : Prop :=
@@ -115,12 +120,15 @@ Lemma ok_replace_inner r other g :
            end).
 Proof.
   intros Hh Hs. destruct r as [bs|b l|s l]; cbn [replace_inner holds] in *; try (cbn [okc]; auto).
-  destruct Hh as (H1 & H2). apply okc_bind. cbn [rmw okc]. split; [exact H1|]. split; [exact H2|]. intros v. cbn [okc].
+  destruct Hh as (H1 & H2). apply okc_bind. cbn [rmw okc]. split; [exact H1|]. split; [exact H2|].
+  split; [reflexivity (* the decrement is at least Release: ord_replace_inner_0, regenerated from the source *)|].
+  intros v. cbn [okc].
   destruct (N.eqb_spec v 1) as [->|Hne].
   - apply okc_bind. cbn [fence okc]. apply okc_bind. unfold heap_dealloc. apply okc_bind. cbn [hdr_cap okc].
-    split; [right; right; gs; reflexivity|]. intros c. cbn [okc].
+    (* the fence is at least Acquire: ord_replace_inner_1, regenerated from the source *)
+    split; [right; right; gs; split; reflexivity|]. intros c. cbn [okc].
     destruct (layout_from_capacity c) as [sz|]; [|exact I]. cbn [dealloc okc]. gs.
-    split; [reflexivity|]. split; [reflexivity|]. split; [|split].
+    split; [reflexivity|]. split; [reflexivity|]. split; [reflexivity|]. split; [|split].
     + intros b'. gs. destruct (Nat.eqb b' b); [reflexivity|apply Hs].
     + gs. reflexivity.
     + intros b' Hne. unfold same_at. gs. apply Nat.eqb_neq in Hne. rewrite !Hne. auto.
@@ -139,7 +147,7 @@ Definition holds_excl (g : ghost) (r : repr) : Prop :=
 Lemma ok_allocate_ptr c g (Q : option bufid -> ghost -> Prop) :
   Q None g ->
   (forall b, g_refs g b = 0%nat -> g_excl g b = false -> g_free g b = false ->
-     Q (Some b) {| g_refs := setf (g_refs g) b 1%nat; g_excl := setf (g_excl g) b true; g_free := g_free g |}) ->
+     Q (Some b) {| g_refs := setf (g_refs g) b 1%nat; g_excl := setf (g_excl g) b true; g_free := g_free g; g_fen := g_fen g |}) ->
   okc (allocate_ptr c) g Q.
 Proof.
   intros Hn Hs. unfold allocate_ptr. destruct (layout_from_capacity c) as [sz|]; [|exact Hn].
@@ -150,7 +158,7 @@ Qed.
 Lemma ok_alloc_copy c t l g (Q : option repr -> ghost -> Prop) :
   Q None g ->
   (forall b, g_refs g b = 0%nat -> g_excl g b = false -> g_free g b = false ->
-     Q (Some (Heap b l)) {| g_refs := setf (g_refs g) b 1%nat; g_excl := setf (g_excl g) b true; g_free := g_free g |}) ->
+     Q (Some (Heap b l)) {| g_refs := setf (g_refs g) b 1%nat; g_excl := setf (g_excl g) b true; g_free := g_free g; g_fen := g_fen g |}) ->
   okc (ob <- allocate_ptr c ;; match ob with None => Ret None | Some b => write (PHeap b) 0 t ;;; Ret (Some (Heap b l)) end) g Q.
 Proof.
   intros Hn Hs. apply okc_bind. apply ok_allocate_ptr; [exact Hn|]. intros b H1 H2 H3. apply okc_bind.
@@ -159,7 +167,7 @@ Qed.
 Lemma ok_heap_with_additional t add g (Q : option repr -> ghost -> Prop) :
   Q None g ->
   (forall b l, g_refs g b = 0%nat -> g_excl g b = false -> g_free g b = false ->
-     Q (Some (Heap b l)) {| g_refs := setf (g_refs g) b 1%nat; g_excl := setf (g_excl g) b true; g_free := g_free g |}) ->
+     Q (Some (Heap b l)) {| g_refs := setf (g_refs g) b 1%nat; g_excl := setf (g_excl g) b true; g_free := g_free g; g_fen := g_fen g |}) ->
   okc (heap_with_additional t add) g Q.
 Proof.
   intros Hn Hs. unfold heap_with_additional. destruct (text_len_new (len t)) as [l|]; [|exact Hn].
@@ -168,7 +176,7 @@ Qed.
 Lemma ok_heap_new t g (Q : option repr -> ghost -> Prop) :
   Q None g ->
   (forall b l, g_refs g b = 0%nat -> g_excl g b = false -> g_free g b = false ->
-     Q (Some (Heap b l)) {| g_refs := setf (g_refs g) b 1%nat; g_excl := setf (g_excl g) b true; g_free := g_free g |}) ->
+     Q (Some (Heap b l)) {| g_refs := setf (g_refs g) b 1%nat; g_excl := setf (g_excl g) b true; g_free := g_free g; g_fen := g_fen g |}) ->
   okc (heap_new t) g Q.
 Proof.
   intros Hn Hs. unfold heap_new. destruct (text_len_new (len t)) as [l|]; [|exact Hn].
@@ -205,10 +213,10 @@ Proof.
     + cbn [okc fst snd holds holds_excl]. auto.
   - (* heap *)
     destruct Hh as (H1 & H2). cbn [repr_len].
-    apply okc_bind. unfold heap_is_unique. apply okc_bind. cbn [load okc]. split; [exact H1|]. intros v. cbn [okc].
+    apply okc_bind. unfold heap_is_unique. apply okc_bind. cbn [load okc]. split; [exact H1|]. split; [reflexivity (* acquire: ord_is_unique_0 *)|]. intros v. cbn [okc].
     destruct (N.eqb_spec v 1) as [->|Hne].
     + (* observed 1 while holding a reference: exclusive *)
-      set (g1 := {| g_refs := g_refs g; g_excl := setf (g_excl g) b (g_excl g b || true); g_free := g_free g |}).
+      set (g1 := {| g_refs := g_refs g; g_excl := setf (g_excl g) b (g_excl g b || true); g_free := g_free g; g_fen := g_fen g |}).
       assert (He1 : g_excl g1 b = true) by (unfold g1; gs; apply orb_true_r).
       apply okc_bind. cbn [hdr_cap okc]. split; [left; exact H1|]. intros c. cbn [okc].
       destruct (cond_reserve_enough c needed).
@@ -216,12 +224,12 @@ Proof.
       * apply okc_bind. apply ok_heap_realloc; [exact He1|]. intros ok. cbn [okc fst snd holds holds_excl].
         split; [exact Hs|]. split; [split; [exact H1|exact H2]|]. intros _. auto.
     + (* shared: read while still holding the reference, copy, then release *)
-      set (g1 := {| g_refs := g_refs g; g_excl := setf (g_excl g) b (g_excl g b || false); g_free := g_free g |}).
+      set (g1 := {| g_refs := g_refs g; g_excl := setf (g_excl g) b (g_excl g b || false); g_free := g_free g; g_fen := g_fen g |}).
       apply okc_bind. cbn [read okc]. split; [left; exact H1|]. intros t. cbn [okc].
       apply okc_bind. apply ok_heap_with_additional.
       * cbn [okc fst snd holds]. split; [exact Hs|]. split; [split; [exact H1|exact H2]|discriminate].
       * intros b' l' N1 N2 N3.
-        set (g2 := {| g_refs := setf (g_refs g1) b' 1%nat; g_excl := setf (g_excl g1) b' true; g_free := g_free g1 |}).
+        set (g2 := {| g_refs := setf (g_refs g1) b' 1%nat; g_excl := setf (g_excl g1) b' true; g_free := g_free g1; g_fen := g_fen g1 |}).
         assert (Hbb : b' <> b) by (intros ->; cbn [g1 g_refs] in N1; lia).
         apply okc_bind. eapply okc_mono.
         -- apply (ok_replace_inner (Heap b l) (Heap b' l') g2).
@@ -247,16 +255,16 @@ Proof.
   intros Hh Hs. unfold ensure_modifiable. destruct r as [bs|b l|s l].
   - cbn [okc fst snd holds holds_excl]. auto.
   - destruct Hh as (H1 & H2).
-    apply okc_bind. unfold heap_is_unique. apply okc_bind. cbn [load okc]. split; [exact H1|]. intros v. cbn [okc].
+    apply okc_bind. unfold heap_is_unique. apply okc_bind. cbn [load okc]. split; [exact H1|]. split; [reflexivity (* acquire: ord_is_unique_0 *)|]. intros v. cbn [okc].
     destruct (N.eqb_spec v 1) as [->|Hne].
     + cbn [okc fst snd holds holds_excl]. gs. split; [exact Hs|]. split; [split; [exact H1|exact H2]|]. intros _.
       split; [exact H1|]. split; [exact H2|apply orb_true_r].
-    + set (g1 := {| g_refs := g_refs g; g_excl := setf (g_excl g) b (g_excl g b || false); g_free := g_free g |}).
+    + set (g1 := {| g_refs := g_refs g; g_excl := setf (g_excl g) b (g_excl g b || false); g_free := g_free g; g_fen := g_fen g |}).
       apply okc_bind. cbn [read okc]. split; [left; exact H1|]. intros t. cbn [okc].
       apply okc_bind. apply ok_heap_new.
       * cbn [okc fst snd holds]. split; [exact Hs|]. split; [split; [exact H1|exact H2]|discriminate].
       * intros b' l' N1 N2 N3.
-        set (g2 := {| g_refs := setf (g_refs g1) b' 1%nat; g_excl := setf (g_excl g1) b' true; g_free := g_free g1 |}).
+        set (g2 := {| g_refs := setf (g_refs g1) b' 1%nat; g_excl := setf (g_excl g1) b' true; g_free := g_free g1; g_fen := g_fen g1 |}).
         assert (Hbb : b' <> b) by (intros ->; cbn [g1 g_refs] in N1; lia).
         apply okc_bind. eapply okc_mono.
         -- apply (ok_replace_inner (Heap b l) (Heap b' l') g2).
